@@ -71,9 +71,26 @@ pub fn eval_hist(case: &Case) -> Driver {
 pub fn evaluate(prop: &str, case: &Case, fault: &Fault) -> Vec<Failure> {
     match fault {
         Fault::None => {
-            let d = eval_hist(case);
+            let d = if prop == "C04" {
+                let mut d = Driver::new(case);
+                d.lenient = true;
+                d.run_all(&case.ops);
+                d
+            } else {
+                eval_hist(case)
+            };
             if prop == "C07" {
                 return crate::c07::oracle(&d);
+            }
+            if prop == "C17" {
+                let mut f: Vec<Failure> = d.failures.iter().filter(|f| f.prop == prop).cloned().collect();
+                if f.is_empty() {
+                    f.extend(crate::meta::c17_differential(case));
+                }
+                if f.is_empty() {
+                    f.extend(crate::meta::c17_gaps(case, case.probe_seed).0);
+                }
+                return f;
             }
             d.failures.into_iter().filter(|f| f.prop == prop).collect()
         }
